@@ -110,5 +110,23 @@ def run(chk, replay=None):
     exp = run_harness([{"op": "cfg", "repl": b64(b'REDACTED')}, {"op": "hash", "s": b64(b'mydb.orders.archive')}])[1]
     if outs[0] != outs[1] or unb64(exp['o']) not in outs[0]:
         chk.violate('CLI -w output differs between processes or from HashName', {'outs': [o.decode('utf-8', 'replace') for o in outs]}, tags=['cli'])
+    if thorough:
+        # the length-3 dictionary theorem (65,641 names) by kernel computation: about 20 minutes, needs an unlimited stack; cached per build key
+        import subprocess as sp
+        from vlib.check import BUILD, VERIF
+        try: key = open(os.path.join(BUILD, '.stamp')).read().strip()[:16]
+        except OSError: key = 'nokey'
+        os.makedirs(os.path.join(BUILD, 'thorough'), exist_ok=True)
+        f = os.path.join(BUILD, 'thorough', 'C13Len3.%s.txt' % key)
+        if not os.path.exists(f):
+            p = sp.run('ulimit -s unlimited; timeout 5000 coqc -Q Gen Gen -Q Model Model -Q Spec Spec -Q Proofs Proofs Thorough/C13Len3.v', shell=True,
+                       cwd=os.path.join(VERIF, 'coq'), capture_output=True, text=True)
+            open(f, 'w').write(p.stdout + p.stderr + '\nEXIT %d\n' % p.returncode)
+        out = open(f).read()
+        chk.obligations += 1; chk.theorems.append('C13_injective_len3')
+        if 'EXIT 0' in out and 'Closed under the global context' in out:
+            chk.discharged += 1
+        else:
+            chk.broken_obligations.append({'obligation': 'Thorough/C13Len3.v (C13_injective_len3)', 'output': out[-1200:]})
     chk.assumptions += ["collision-freeness of a 64-bit truncated SHA-256 is proved only on the finite dictionary (bound in the theorem) and reduced to digest-prefix collisions in general",
                         "Sha256.v is a hand-written definition validated against crypto/sha256 on this run"]
